@@ -345,6 +345,26 @@ pub fn run(base: Instant, s: &Scn, devs: &Devs, alts: &[Fate], dump: bool) -> Ou
                 }
             }
             let cl = m.w.nodes[SERVER].cid_len;
+            if cl == 0 && m.w.nodes[SERVER].conns.is_empty() {
+                // zero-length connection IDs: the route is the address pair; one short-header datagram
+                // from every address a client ever used must reach nobody
+                m.w.nodes[SERVER].policy = AcceptPolicy::Ignore;
+                let dst = m.w.nodes[SERVER].addr;
+                let srcs: std::collections::BTreeSet<std::net::SocketAddr> = m.w.recs.iter().filter_map(|r| match r {
+                    Rec::Emit { node, src, dst: d, ch: Some(_), .. } if *node != SERVER && *d == dst => Some(*src),
+                    _ => None,
+                }).collect();
+                for src in srcs {
+                    let mut d = vec![0x43u8];
+                    d.extend((0..40).map(|i| (i * 11 + 3) as u8));
+                    let at = m.w.t;
+                    let r = m.w.deliver(crate::sim::Flight { at, seq: 0, idx: u64::MAX, src, dst, ecn: None, data: d, injected: true });
+                    if let Routed::Conn(ch) = r {
+                        reset_viol.push(("forgotten-address-routes".into(), format!("zero-length connection IDs: after every connection was closed and drained, a datagram from {src} was handed to connection handle {}", ch.0)));
+                        break;
+                    }
+                }
+            }
             if cl > 0 && m.w.nodes[SERVER].conns.is_empty() {
                 m.w.nodes[SERVER].policy = AcceptPolicy::Ignore;
                 let (src, dst) = (m.w.nodes[1].addr, m.w.nodes[SERVER].addr);
@@ -537,6 +557,10 @@ pub fn scenarios(thorough: bool) -> Vec<Scn> {
         s.window = (at.saturating_sub(4), at + 20);
         v.push(s);
     }
+    let mut s = mk("cid0-close1@30", 0);
+    s.close = vec![(30, 1)];
+    s.window = (26, 40);
+    v.push(s);
     let mut s = mk("cid8-preferred-address", 8);
     s.preferred = true;
     v.push(s);
